@@ -133,6 +133,12 @@ def emit(p, fname, naming=0):
         ret = {"i-j": "%s - %s" % (i, j), "j-i": "%s - %s" % (j, i), "i+j": "%s + %s" % (i, j), "i*2+j": "%s*2 + %s" % (i, j)}[p["ret"]]
         return sig + ("\t%s := 0\n\tfor ; %s < clamp(%s); %s++ {\n\t}\n\t%s := 0\n\tfor ; %s < clamp(%s); %s++ {\n\t}\n\treturn %s\n}\n"
                       % (i, i, a, i, j, j, b, j, ret))
+    if t == "dectree":
+        cond = lambda c: "%s > 0" % b if c == "b>0" else "%s > %s" % (a, b)
+        L = [expr(p[k], N, pres) for k in ("l1", "l2", "l3", "l4")]
+        return sig + ("\tif %s > 0 {\n\t\tif %s {\n\t\t\treturn %s\n\t\t} else {\n\t\t\treturn %s\n\t\t}\n\t} else {\n"
+                      "\t\tif %s {\n\t\t\treturn %s\n\t\t} else {\n\t\t\treturn %s\n\t\t}\n\t}\n}\n") % (
+            a, cond(p["c2"]), L[0], L[1], cond(p["c3"]), L[2], L[3])
     if t == "extract":
         x, y = N["x"], N["y"]
         v = x if p["sel"] == "x" else y
